@@ -165,7 +165,38 @@ def plain_upload(u):
     tail = u.file.read(50)
     if big != data or b''.join(pieces) != data or tail != data[max(0, len(data) - 3):]:
         return ('file', u.raw_filename, ct, big, 'sized reads leave the part')
+    # the other way to the content: FileUpload.save() into a file-like object and into a directory
+    import io
+    import os
+    import tempfile
+    import shutil
+    u.file.seek(0)
+    sink = io.BytesIO()
+    u.save(sink, chunk_size=5)
+    u.file.seek(2)
+    sink2 = io.BytesIO()
+    u.save(sink2)
+    pos_after = u.file.tell()
+    if sink.getvalue() != data or sink2.getvalue() != data[2:] or pos_after != min(2, len(data)) and len(data) >= 2:
+        return ('file', u.raw_filename, ct, sink.getvalue(), 'save() into a file-like object differs (or moves the position)')
+    d = tempfile.mkdtemp(prefix='vmon-c07-', dir='/dev/shm' if os.path.isdir('/dev/shm') else None)
+    try:
+        u.file.seek(0)
+        u.save(d)
+        names = os.listdir(d)
+        if len(names) != 1 or os.path.realpath(os.path.join(d, names[0])) != os.path.join(os.path.realpath(d), names[0]):
+            return ('file', u.raw_filename, ct, data, f'save() into a directory wrote {names!r}')
+        with open(os.path.join(d, names[0]), 'rb') as fh:
+            saved = fh.read()
+        if saved != data:
+            return ('file', u.raw_filename, ct, saved, 'save() into a directory wrote other bytes')
+        SAVED['n'] = SAVED.get('n', 0) + 1
+    finally:
+        shutil.rmtree(d, ignore_errors=True)
     return ('file', u.raw_filename, ct, data)
+
+
+SAVED = {}
 
 
 def plain(v):
